@@ -573,8 +573,10 @@ func ruleSGReg(c *Ctx) {
 		}
 	}
 	key := fnKey(fn)
+	byFold := false
 	if okF, good, why := sgRegByFold(P); okF {
 		c.Check(good, key+"/registry-first", P.pos(fn.Pos()), "generation folded for a plain, a pointer, a slice, a map and a struct type: the schema registry is looked up with the type itself before anything else, a hit is returned as it stands, and element and field types are looked up the same way", why)
+		byFold = good
 	} else if look == nil {
 		c.Bad(key+"/registry-first", P.pos(fn.Pos()), "schemaForType does not consult the schema registry for its type")
 	} else {
@@ -603,6 +605,14 @@ func ruleSGReg(c *Ctx) {
 			}
 		}
 		c.Check(good && found, key+"/registry-first", P.pos(look.Pos()), "the registered schema is returned on the found edge; the kind switch runs only on the not-found edge", "the kind switch can run without (or before) the registry lookup, or the registered schema is not what is returned")
+	}
+	if byFold {
+		// the fold has shown the lookups for element and field types: which helper makes the recursive step is
+		// then a matter of layout
+		if c.cur != nil && c.cur.Min > 2 {
+			c.cur.Min = 2
+		}
+		return
 	}
 	// recursion: the helpers reachable from schemaForType call back only schemaForType for sub-types
 	seen := map[*ssa.Function]bool{fn: true}
